@@ -117,7 +117,7 @@ def r_rej_empty(ctx):
                 obs.append(Ob("R-REJ-EMPTY", fn, "error exit leaves the store untouched", not muts, "mutations on an error path: %d" % len(muts), rel(f["loc"])))
                 if not (isinstance(p.value, tuple) and p.value and p.value[0] == "errprop"):
                     # the function's own refusal: taken only for empty content, in whatever form the test is written
-                    data_params = [V("param:" + n) for n in fa.param_names if n not in ("self", "tile_id")]
+                    data_params = [V("param:" + n) for n in fa.param_names if n != "self" and V("param:" + n) != role_param(fa, f, "u64")]
                     d = rejects_because(p, None, lambda fct: fct[0] == "empty" and fct[2] is True and any(x in leaves(fct[1]) or unmut(fct[1]) == x for x in data_params))
                     ex = [e for e in p.events if e.kind == "exit"]
                     obs.append(Ob("R-REJ-EMPTY", fn, "content is refused only when it is empty", d is not None,
@@ -128,7 +128,7 @@ def r_rej_empty(ctx):
             for c in calls(g["body"]):
                 if c["fn"] == fn and g["path"] != fn:
                     ga = ctx.fa(g)
-                    ok = all(p.exit == "tail" and is_call_to(unmut(p.value), lambda s: s == fn) and V("param:data") in unmut(p.value)[2] for p in ga.paths)
+                    ok = all(p.exit == "tail" and is_call_to(unmut(p.value), lambda s: s == fn) and role_param(ga, g, "bytes") in unmut(p.value)[2] for p in ga.paths)
                     obs.append(Ob("R-REJ-EMPTY", g["path"], "wrapper forwards content and result unchanged", ok, "paths: %s" % [p.exit for p in ga.paths], rel(g["loc"])))
     return obs
 
@@ -146,7 +146,7 @@ def r_add_pair(ctx):
         for p in fa.paths:
             if p.exit not in ("ok", "tail"):
                 continue
-            tid = V("param:tile_id")
+            tid = role_param(fa, f, "u64")
             ins_t = [e for e in p.events if e.kind == "call" and e.d["fn"] == HM + "insert" and unmut(e.d["args"][0]) == self_field(roles["tiles"])]
             ins_d = [e for e in p.events if e.kind == "call" and e.d["fn"] == HM + "insert" and unmut(e.d["args"][0]) == self_field(roles["data"])]
             ins_s = [e for e in p.events if e.kind == "call" and e.d["fn"] == HS + "insert"]
@@ -172,7 +172,7 @@ def r_add_pair(ctx):
             ok_rm = len(rm) == 1 and rm[0].seq < first_ins and unmut(rm[0].d["args"][1]) == tid
             obs.append(Ob("R-ADD-PAIR", fn, "previous binding of tile_id removed first", ok_rm,
                           "remove calls: %d; the removal must precede all three registrations (a later removal strips the id that was just registered when the content is unchanged)" % len(rm), rel(f["loc"])))
-            content_ok = is_call_to(content, lambda s: s.endswith("::into")) and content[2][0] == V("param:data") or content == V("param:data")
+            content_ok = is_call_to(content, lambda s: s.endswith("::into")) and content[2][0] == role_param(fa, f, "bytes") or content == role_param(fa, f, "bytes")
             obs.append(Ob("R-ADD-PAIR", fn, "stored bytes = the content passed in", bool(content_ok), "stored %s" % tstr(content)[:80], ins_d[0].loc()))
     return obs
 
@@ -191,7 +191,7 @@ def r_remove_guard(ctx):
         n_drop = 0
         for p in fa.paths:
             first = [e for e in p.events if e.kind == "call" and any(e.d["fn"].startswith(x) for x in (HM, HS)) and e.d["fn"] != HM + "entry"]
-            ok_first = bool(first) and first[0].d["fn"] == HM + "remove" and unmut(first[0].d["args"][0]) == self_field(roles["tiles"]) and unmut(first[0].d["args"][1]) == V("param:tile_id")
+            ok_first = bool(first) and first[0].d["fn"] == HM + "remove" and unmut(first[0].d["args"][0]) == self_field(roles["tiles"]) and unmut(first[0].d["args"][1]) == role_param(fa, f, "u64")
             if not first and any(fct[0] == "variant" and fct[2].endswith("Entry::Occupied") and fct[3] is False and is_call_to(unmut(fct[1]), lambda s: s == HM + "entry")
                                  and unmut(fct[1])[2][0] == self_field(roles["tiles"]) for fct, _d in path_facts(p)):
                 continue      # the id is not in the id map (vacant entry): nothing to remove on this path
@@ -215,7 +215,7 @@ def r_remove_guard(ctx):
                 # no id set exists for this hash: nothing to remove from
                 obs.append(Ob("R-REMOVE-GUARD", fn, "hash-backed tile: id leaves the id set of its hash", not setrm, "no id set for this hash on this path", rel(f["loc"])))
             elif hashed:
-                ok_set = len(setrm) == 1 and unmut(setrm[0].d["args"][1]) == V("param:tile_id") and any(
+                ok_set = len(setrm) == 1 and unmut(setrm[0].d["args"][1]) == role_param(fa, f, "u64") and any(
                     is_call_to(t, lambda s: s in (HM + "entry", HM + "get_mut")) and t[2][0] == self_field(roles["ids"]) and t[2][1] == hpay for t in subterms(unmut(setrm[0].d["args"][0])))
                 obs.append(Ob("R-REMOVE-GUARD", fn, "hash-backed tile: id leaves the id set of its hash", ok_set, "id-set removals: %d" % len(setrm), rel(f["loc"])))
             for dr in drops_d + drops_s:
@@ -256,7 +256,7 @@ def r_lookup(ctx):
         seen = set()
         for p in fa.paths:
             gets = [e for e in p.events if e.kind == "call" and e.d["fn"] == HM + "get" and unmut(e.d["args"][0]) == self_field(roles["tiles"])]
-            if len(gets) != 1 or unmut(gets[0].d["args"][1]) != V("param:tile_id"):
+            if len(gets) != 1 or unmut(gets[0].d["args"][1]) != role_param(fa, f, "u64"):
                 obs.append(Ob("R-LOOKUP", fn, "resolves the requested id through the id map", False, "id-map lookups on this path: %d" % len(gets), rel(f["loc"])))
                 continue
             got = unmut(gets[0].d["ret"])
@@ -285,7 +285,7 @@ def r_lookup(ctx):
             ok = False
             if is_call_to(v, lambda s: s == "core::result::Result::Ok") and v[2]:
                 inner = v[2][0]
-                ok = is_call_to(inner, lambda s: s.endswith("::cloned")) and is_call_to(inner[2][0], lambda s: s == HM + "get") and inner[2][0][2][1] == h and inner[2][0][2][0] == V("param:data_by_hash")
+                ok = is_call_to(inner, lambda s: s.endswith("::cloned")) and is_call_to(inner[2][0], lambda s: s == HM + "get") and inner[2][0][2][1] == h and inner[2][0][2][0] in [V("param:" + n_) for n_, prm_ in zip(fa.param_names, f["params"]) if "HashMap<" in (prm_["ty"] or "")]
             reads = [e for e in p.events if e.kind == "call" and e.d["effects"]]
             obs.append(Ob("R-LOOKUP", fn, "hash-backed tile ⇒ clone of the bytes stored under its hash, no stream access", ok and not reads, "returns %s" % tstr(v)[:120], rel(f["loc"])))
         if n == 0:
@@ -304,6 +304,19 @@ def rle_fns(ctx):
     return ctx.rle_fns()
 
 
+def _pair_fields(ctx, f_off, f_len, adt=None):
+    """a local struct with exactly one u64 field (named f_off) and one u32 field (named f_len): an (offset, length) pair by its types"""
+    for path, a in ctx.facts.adts.items():
+        if adt is not None and path != adt:
+            continue
+        if a.get("kind") != "struct" or len(a["variants"]) != 1:
+            continue
+        fl = {x["name"]: x["ty"] for x in a["variants"][0]["fields"]}
+        if set(fl) == {f_off, f_len} and fl[f_off] == "u64" and fl[f_len] == "u32":
+            return True
+    return False
+
+
 def r_finish_pair(ctx):
     obs = []
     fins = finishers(ctx)
@@ -320,7 +333,7 @@ def r_finish_pair(ctx):
             if p.exit not in ("ok", "tail"):
                 continue
             pushes = [e for e in p.events if e.kind == "call" and e.d["fn"] in rle]
-            incs = [e for e in p.events if e.kind == "assign" and e.d.get("compound") == "+" and e.d.get("name")]
+            incs = [e for e in p.events if e.kind == "assign" and e.d.get("compound") == "+" and (e.d.get("name") or e.d.get("place") is not None)]
             appends = [e for e in p.events if e.kind == "call" and e.d["fn"].endswith("Vec::<T, A>::append") or (e.kind == "call" and e.d["fn"].endswith("::extend_from_slice")) or (e.kind == "call" and e.d["fn"].endswith("Vec::<T, A>::extend"))]
             gets = []
             seen_probe = set()
@@ -374,6 +387,12 @@ def r_finish_pair(ctx):
                     # `*occupied.get()` of the entry that was probed
                     stored_pair = is_call_to(x_, lambda s: s.startswith("std::collections::hash::map::OccupiedEntry::") and s.endswith(("::get", "::get_mut", "::into_mut"))) and \
                         any(t == probe for t in subterms(x_))
+                if not stored_pair and len(a) == 4 and a[2][0] == "f" and a[3][0] == "f" and unmut(a[2][1]) == unmut(a[3][1]) and a[2][2] != a[3][2]:
+                    # the remembered pair is a small struct: its u64 field is the offset, its u32 field the length (the types keep them apart)
+                    x_ = unmut(a[2][1])
+                    while isinstance(x_, tuple) and x_ and x_[0] == "un" and x_[1] == "*":
+                        x_ = unmut(x_[2])
+                    stored_pair = x_ == probe and _pair_fields(ctx, a[2][2], a[3][2])
                 ok = not appends and not mins and stored_pair
                 obs.append(Ob("R-FINISH-PAIR", fn, "hit: reuses the stored (offset, length), appends nothing", ok, "entry = (%s, %s); appends: %d" % (tstr(a[2])[:60], tstr(a[3])[:60], len(appends)), pu.loc()))
                 obs.append(Ob("R-COUNTERS", fn, "hit: exactly one counter (+1) moves", len(incs) == 1 and len(addr_inc) == 1, "increments: %d" % len(incs), pu.loc()))
@@ -394,7 +413,14 @@ def r_finish_pair(ctx):
                     if mins[0] in vins:
                         # slot.insert(value) on the vacant entry of the probe: same map, same key
                         mi = [hmap, hkey, mi[1]] if any(t == probe for t in subterms(mi[0])) else [None, None, mi[1]]
-                    ok_ins = mi[0] == hmap and mi[1] == hkey and mi[2] == ("tup", (off, ln))
+                    val_ok = mi[2] == ("tup", (off, ln))
+                    if not val_ok and isinstance(mi[2], tuple) and mi[2] and mi[2][0] == "struct" and len(mi[2][2]) == 2:
+                        fl = dict(mi[2][2])
+                        names = list(fl)
+                        for fo, fl_ in ((names[0], names[1]), (names[1], names[0])):
+                            if unmut(fl[fo]) == off and unmut(fl[fl_]) == ln and _pair_fields(ctx, fo, fl_, mi[2][1]):
+                                val_ok = True
+                    ok_ins = mi[0] == hmap and mi[1] == hkey and val_ok
                     obs.append(Ob("R-FINISH-PAIR", fn, "miss: the same (offset, length) remembered under the same key in the probed map", ok_ins, "insert(%s, %s)" % (tstr(mi[1])[:60], tstr(mi[2])[:80]), mins[0].loc()))
                 v_ = unmut(p.value)
                 fr_ = v_[2][0] if is_call_to(v_, lambda s: s == "core::result::Result::Ok") and v_[2] else None
@@ -423,11 +449,15 @@ def r_finish_pair(ctx):
                 (var, val), = moved.items()
                 obs.append(Ob("R-COUNTERS", fn, "num_addressed_tiles = counter incremented once per entry push", struct_field(fr, "num_addressed_tiles") == val, "num_addressed_tiles = %s" % tstr(struct_field(fr, "num_addressed_tiles"))[:80], rel(f["loc"])))
                 ntc = struct_field(fr, "num_tile_content")
-                ok_c = (isinstance(ntc, tuple) and ntc[0] == "v" and ntc != val[2]) or (_is_len_of(ntc, hmap) and not mins)
+                ok_c = (isinstance(ntc, tuple) and ntc[0] == "v" and ntc != val[2]) or (_is_len_of(ntc, hmap) and not mins) or \
+                    (isinstance(ntc, tuple) and ntc[0] == "f" and ntc != val[2] and not any(e.d.get("place") is not None and unmut(e.d["place"])[0] == "f" and unmut(e.d["place"])[2] == ntc[2] for e in incs))
                 obs.append(Ob("R-COUNTERS", fn, "num_tile_content does not move on a dedup hit", ok_c, "num_tile_content = %s" % tstr(ntc)[:80], rel(f["loc"])))
             if not hit and len(moved) == 2:
                 vals = set(moved.values())
                 na, nc = struct_field(fr, "num_addressed_tiles"), struct_field(fr, "num_tile_content")
+                # a counter kept in a field of a local struct: reading that field after the loop yields what the (only) increment on this path stored
+                by_place = {unmut(e.d["place"]): unmut(e.d["value"]) for e in incs if e.d.get("place") is not None}
+                na, nc = by_place.get(unmut(na), na) if na is not None else na, by_place.get(unmut(nc), nc) if nc is not None else nc
                 obs.append(Ob("R-COUNTERS", fn, "miss: both counters reach the result, one each", {na, nc} == vals and na != nc, "addressed = %s, content = %s" % (tstr(na)[:50], tstr(nc)[:50]), rel(f["loc"])))
             dat = struct_field(fr, "data")
             if appends:
@@ -480,7 +510,8 @@ def r_rle_dep(ctx):
     for f in fs:
         fn = f["path"]
         fa = ctx.fa(f)
-        P = {n: V("param:" + n) for n in fa.param_names}
+        # the run-length merge's parameters by type and order: (entries: &mut Vec<Entry>, tile_id: u64, offset: u64, length: u32)
+        P = {"entries": role_param(fa, f, "entryvec"), "tile_id": role_param(fa, f, "u64", 0), "offset": role_param(fa, f, "u64", 1), "length": role_param(fa, f, "u32")}
         ext = 0
         for p in fa.paths:
             stores = [e for e in p.events if e.kind == "assign" and e.d.get("place") is not None and unmut(e.d["place"])[0] == "f" and unmut(e.d["place"])[2] == "run_length"]
@@ -850,7 +881,8 @@ def r_add_offset(ctx):
     for f in fs:
         fa = ctx.fa(f)
         fn = f["path"]
-        P = {n: V("param:" + n) for n in fa.param_names}
+        # the registration's parameters by type and order: (tile_id: u64, offset: u64, length: u32)
+        P = {"tile_id": role_param(fa, f, "u64", 0), "offset": role_param(fa, f, "u64", 1), "length": role_param(fa, f, "u32")}
         errs = [p for p in fa.paths if p.exit == "err"]
         for p in fa.paths:
             if p.exit not in ("ok", "tail"):
